@@ -660,13 +660,17 @@ Subtree ts_subtree_edit(Subtree self, const TSInputEdit *input_edit, SubtreePool
     },
   }));
 
+  // Whether the text that follows the edit on its last line starts in a different column than
+  // before. This must be judged in document coordinates: relative to a node that starts after
+  // the edit's start, the edit's new end saturates to zero and the shift would go unnoticed.
+  bool column_shifted = input_edit->new_end_point.column != input_edit->old_end_point.column;
+
   while (stack.size) {
     EditEntry entry = array_pop(&stack);
     Edit edit = entry.edit;
     bool is_noop = edit.old_end.bytes == edit.start.bytes && edit.new_end.bytes == edit.start.bytes;
     bool is_pure_insertion = edit.old_end.bytes == edit.start.bytes;
     bool parent_depends_on_column = ts_subtree_depends_on_column(*entry.tree);
-    bool column_shifted = edit.new_end.extent.column != edit.old_end.extent.column;
 
     Length size = ts_subtree_size(*entry.tree);
     Length padding = ts_subtree_padding(*entry.tree);
